@@ -40,13 +40,16 @@ func (l Lit) String() string {
 }
 
 type Event struct {
-	Kind  string   // "call", "defer", "store"
-	Name  string   // callee key / field name
-	Val   string   // store: term of the stored value as resolved on the path
-	Base  string   // store: term of the struct the field belongs to
-	Args  []string // call: terms of the arguments
-	Instr ssa.Instruction
-	At    token.Pos // optional: where to report (the outermost call site when the instruction sits in a helper walked in place)
+	Kind string   // "call", "defer", "store"
+	Name string   // callee key / field name
+	Val  string   // store: term of the stored value as resolved on the path
+	Base string   // store: term of the struct the field belongs to
+	Args []string // call: terms of the arguments
+	// Target: for a call through a function value that is, on this path, a known function literal (a callback handed
+	// to a helper that is walked in place): the literal's name
+	Target string
+	Instr  ssa.Instruction
+	At     token.Pos // optional: where to report (the outermost call site when the instruction sits in a helper walked in place)
 }
 
 // outerPos is the position of the outermost call through which the enumeration reached `in` (in itself when it is in
@@ -124,7 +127,9 @@ type Termer struct {
 	depth  int
 	P      *Program
 	Custom func(v ssa.Value, ps *pathState) (string, bool)
-	memo   map[ssa.Value]string // within one top-level Term call (the path state does not change meanwhile)
+	// ConstPhis: a loop counter that is a known number on the path (see TabOpts.UnrollRoot) is named by that number
+	ConstPhis bool
+	memo      map[memoKey]string // within one top-level Term call (the path state does not change meanwhile)
 }
 
 // Term names v on the path ps. Shared sub-expressions are named once per call, and a name that grows beyond
@@ -134,10 +139,10 @@ const maxTermLen = 1200
 
 func (t *Termer) Term(v ssa.Value, ps *pathState) string {
 	if t.depth == 0 {
-		t.memo = map[ssa.Value]string{}
+		t.memo = map[memoKey]string{}
 		defer func() { t.memo = nil }()
 	}
-	if s, ok := t.memo[v]; ok {
+	if s, ok := t.memo[memoKey{v, ps}]; ok {
 		return s
 	}
 	s := t.term(v, ps)
@@ -147,9 +152,14 @@ func (t *Termer) Term(v ssa.Value, ps *pathState) string {
 		s = fmt.Sprintf("?big:%x", h.Sum64())
 	}
 	if t.memo != nil {
-		t.memo[v] = s
+		t.memo[memoKey{v, ps}] = s
 	}
 	return s
+}
+
+type memoKey struct {
+	v  ssa.Value
+	ps *pathState
 }
 
 func (t *Termer) term(v ssa.Value, ps *pathState) string {
@@ -167,8 +177,59 @@ func (t *Termer) term(v ssa.Value, ps *pathState) string {
 		}
 		return "?deep"
 	}
+	if ps != nil && len(ps.RetInst) > 0 {
+		// the result of a helper that was walked in place keeps the name of the instance that produced it, however
+		// often the helper has been walked again since
+		var call *ssa.Call
+		idx := 0
+		switch x := v.(type) {
+		case *ssa.Call:
+			call = x
+		case *ssa.Extract:
+			if cl, ok := x.Tuple.(*ssa.Call); ok {
+				call, idx = cl, x.Index
+			}
+		}
+		if call != nil {
+			if rs, ok := ps.Ret[call]; ok && idx < len(rs) {
+				if snap, ok := ps.RetInst[call]; ok {
+					differs := false
+					for b, k := range snap {
+						if ps.BlockInst[b] != k {
+							differs = true
+						}
+					}
+					if differs {
+						ps2 := *ps
+						ps2.BlockInst = make(map[*ssa.BasicBlock]int, len(ps.BlockInst))
+						for b, k := range ps.BlockInst {
+							ps2.BlockInst[b] = k
+						}
+						for b, k := range snap {
+							ps2.BlockInst[b] = k
+						}
+						ps2.RetInst = nil
+						return t.term(rs[idx], &ps2)
+					}
+				}
+			}
+		}
+	}
 	if ps != nil {
 		v = ps.Resolve(v)
+	}
+	if ps != nil && len(ps.ACells) > 0 {
+		if ld, ok := v.(*ssa.UnOp); ok && ld.Op == token.MUL {
+			if ia, ok := ld.X.(*ssa.IndexAddr); ok {
+				if al, ok := ia.X.(*ssa.Alloc); ok {
+					if k, ok := evalIntD(ia.Index, ps, 20); ok {
+						if s, ok := ps.ACells[arrayCellKey(al, k)]; ok {
+							return s
+						}
+					}
+				}
+			}
+		}
 	}
 	if t.Custom != nil {
 		if s, ok := t.Custom(v, ps); ok {
@@ -362,6 +423,11 @@ func (t *Termer) term(v ssa.Value, ps *pathState) string {
 		}
 		return t.Term(x.X, ps) + "[" + lo + ":" + hi + "]"
 	case *ssa.Phi:
+		if t.ConstPhis && ps != nil {
+			if n, ok := ps.Vals[x]; ok {
+				return fmt.Sprintf("const:%d", n)
+			}
+		}
 		return "phi:" + x.Name() + "@" + x.Parent().Name() + ps.genOf(x)
 	}
 	return fmt.Sprintf("?%s", v.Name()) + ps.genOf(v)
@@ -583,12 +649,12 @@ func evalCmp(v int64, op token.Token, c int64) bool {
 }
 
 type TabOpts struct {
-	Termer  *Termer
-	Stop    func(in ssa.Instruction, ps *pathState) bool // stop the path *before* executing in; path recorded with Stop=in
+	Termer *Termer
+	Stop   func(in ssa.Instruction, ps *pathState) bool // stop the path *before* executing in; path recorded with Stop=in
 	// StopGoesOn: Stop only records the path so far (with a snapshot of its state) and the walk goes on, so that an
 	// instruction inside a loop is seen on its first arrival and again in the generic later iteration
 	StopGoesOn bool
-	EventOf func(in ssa.Instruction, ps *pathState) (Event, bool)
+	EventOf    func(in ssa.Instruction, ps *pathState) (Event, bool)
 	// Assume lists literals taken as given (e.g. the abstract class under evaluation); paths contradicting them are pruned.
 	Assume []Lit
 	// Values fixes SSA values to integers for constant folding (the abstract class under evaluation).
@@ -603,6 +669,12 @@ type TabOpts struct {
 	// what was stored). RunDefers executes the deferred calls at the function's exits (module functions and function
 	// literals are walked in place, others produce a "rundefer" event).
 	FieldCells bool
+	// UnrollRoot: counted loops of the analysed function itself whose trip count is a known number (`for i := range
+	// [3]string{}`) are walked iteration by iteration, as such loops in helpers walked in place always are.
+	// ArrayCells: what is stored into an element of a local array at an index that is a known number on the path is
+	// what a later load of that element sees (kept as the term the value had when it was stored).
+	UnrollRoot bool
+	ArrayCells bool
 	RunDefers  bool
 	// InlineAlso: confirmed functions that this enumeration walks in place as well (a three-way helper whose table is
 	// decided separately, called where the comparison used to be written out).
@@ -703,6 +775,27 @@ func EnumLits(start *ssa.BasicBlock, idx int, o TabOpts) ([]*LPath, bool) {
 					ps.FLast = nil // the callee may have stored into the field as well: the value is not known any more
 				}
 			}
+			if o.ArrayCells {
+				if st, ok := in.(*ssa.Store); ok {
+					if ia, ok := st.Addr.(*ssa.IndexAddr); ok {
+						if al, ok := ia.X.(*ssa.Alloc); ok && isArrayCell(al) {
+							if k, ok := evalIntD(ia.Index, ps, 20); ok {
+								if ps.ACells == nil {
+									ps.ACells = map[string]string{}
+								}
+								ps.ACells[arrayCellKey(al, k)] = o.Termer.Term(st.Val, ps)
+							} else {
+								// a store at an unknown index: nothing is known about any element any more
+								for key := range ps.ACells {
+									if strings.HasPrefix(key, fmt.Sprintf("%p#", al)) {
+										delete(ps.ACells, key)
+									}
+								}
+							}
+						}
+					}
+				}
+			}
 			if o.FieldCells {
 				// a struct copied whole from one local to another (`sh := scanNumeric(s)` with the helper walked in
 				// place: its `return sh` is a load of its own local): the fields travel with it
@@ -798,6 +891,7 @@ func EnumLits(start *ssa.BasicBlock, idx int, o TabOpts) ([]*LPath, bool) {
 								delete(ps.Visits, fb)
 								delete(ps.Havoc, fb)
 							}
+							ps.newInstance(f)
 							ps.Stack = append(ps.Stack, inlFrame{call: nil, block: b, idx: i - 1, fn: f})
 							walk(f.Blocks[0], 0, ps, fr, true)
 							return
@@ -863,6 +957,7 @@ func EnumLits(start *ssa.BasicBlock, idx int, o TabOpts) ([]*LPath, bool) {
 							delete(ps.Visits, fb)
 							delete(ps.Havoc, fb)
 						}
+						ps.newInstance(f)
 						ps.Stack = append(ps.Stack, inlFrame{call: call, block: b, idx: i, fn: f})
 						walk(f.Blocks[0], 0, ps, fr, true)
 						return
@@ -886,6 +981,7 @@ func EnumLits(start *ssa.BasicBlock, idx int, o TabOpts) ([]*LPath, bool) {
 						delete(ps.Visits, fb)
 						delete(ps.Havoc, fb)
 					}
+					ps.newInstance(f)
 					ps.Stack = append(ps.Stack, inlFrame{call: call, block: b, idx: i, fn: f})
 					walk(f.Blocks[0], 0, ps, fr, true)
 					return
@@ -945,6 +1041,22 @@ func EnumLits(start *ssa.BasicBlock, idx int, o TabOpts) ([]*LPath, bool) {
 							ps.Ret = map[*ssa.Call][]ssa.Value{}
 						}
 						ps.Ret[top.call] = rs
+						if top.fn != nil && len(ps.BlockInst) > 0 {
+							snap := map[*ssa.BasicBlock]int{}
+							for _, fb := range top.fn.Blocks {
+								if k, ok := ps.BlockInst[fb]; ok {
+									snap[fb] = k
+								}
+							}
+							if len(snap) > 0 {
+								nri := make(map[*ssa.Call]map[*ssa.BasicBlock]int, len(ps.RetInst)+1)
+								for c2, m2 := range ps.RetInst {
+									nri[c2] = m2
+								}
+								nri[top.call] = snap
+								ps.RetInst = nri
+							}
+						}
 					}
 					if ps.Resume == nil {
 						ps.Resume = map[int]bool{}
@@ -1017,7 +1129,7 @@ func EnumLits(start *ssa.BasicBlock, idx int, o TabOpts) ([]*LPath, bool) {
 			// back-edge is taken (`for _, a := range [...]string{"ROWID", "OID", "_ROWID_"}`), is walked iteration by
 			// iteration with the numbers, not as "some later iteration"
 			var cvals map[ssa.Value]int64
-			if visits >= 1 && len(ps.Stack) > 0 && s.Dominates(b) && visits < maxConcreteIter {
+			if visits >= 1 && (len(ps.Stack) > 0 || o.UnrollRoot) && s.Dominates(b) && visits < maxConcreteIter {
 				cvals = concreteBackEdge(s, b, ps)
 			}
 			if visits >= 2 && cvals == nil {
@@ -1084,6 +1196,20 @@ func EnumLits(start *ssa.BasicBlock, idx int, o TabOpts) ([]*LPath, bool) {
 							nv[k2] = v2
 						}
 						nps.Vals = nv
+					}
+					// what a field was last assigned is an instruction of the iteration that ends here; in the next
+					// iteration the same instruction stands for another value (`x.f = append(x.f, …)` would name
+					// itself), and what the body's loads saw then is not what they see now
+					nps.FLast = nil
+					if len(nps.Loaded) > 0 {
+						nl := make(map[*ssa.UnOp]ssa.Value, len(nps.Loaded))
+						body := loopBody(s)
+						for k2, v2 := range nps.Loaded {
+							if !body[k2.Block()] {
+								nl[k2] = v2
+							}
+						}
+						nps.Loaded = nl
 					}
 					// a new iteration of s's loop: inner loops start over
 					for ib := range loopBody(s) {
@@ -1182,6 +1308,21 @@ func (t *Termer) altLits(alt []boolAssign, lits []Lit, ps *pathState) ([]Lit, bo
 	return nl, true
 }
 
+// newInstance: f is about to be walked in place once more on this path.
+func (ps *pathState) newInstance(f *ssa.Function) {
+	if ps.InlineCount == nil {
+		ps.InlineCount = map[*ssa.Function]int{}
+	}
+	ps.InlineCount[f]++
+	k := ps.InlineCount[f]
+	if ps.BlockInst == nil {
+		ps.BlockInst = map[*ssa.BasicBlock]int{}
+	}
+	for _, fb := range f.Blocks {
+		ps.BlockInst[fb] = k
+	}
+}
+
 // fieldPathKey names the field a FieldAddr denotes on this path, for counting the stores into it.
 func fieldPathKey(fa *ssa.FieldAddr, ps *pathState) string {
 	base := ps.Resolve(fa.X)
@@ -1203,6 +1344,35 @@ func fieldPathKey(fa *ssa.FieldAddr, ps *pathState) string {
 }
 
 const maxConcreteIter = 12
+
+// isArrayCell: a local variable of array type whose elements are only read and written element by element (its address
+// does not leave the function and it is not copied or sliced).
+func isArrayCell(al *ssa.Alloc) bool {
+	pt, ok := al.Type().Underlying().(*types.Pointer)
+	if !ok {
+		return false
+	}
+	if _, ok := pt.Elem().Underlying().(*types.Array); !ok {
+		return false
+	}
+	for _, r := range *al.Referrers() {
+		switch x := r.(type) {
+		case *ssa.IndexAddr, *ssa.DebugRef:
+		case *ssa.UnOp:
+			// (the copy `range` makes of an array it only needs the length of is never used)
+			if x.Referrers() != nil && len(*x.Referrers()) > 0 {
+				return false
+			}
+		default:
+			return false
+		}
+	}
+	return true
+}
+
+func arrayCellKey(al *ssa.Alloc, k int64) string {
+	return fmt.Sprintf("%p#%d", al, k)
+}
 
 // concreteBackEdge: the values the phis of loop header h take when it is re-entered from pred on this path, when h has
 // phis, all of them integers, and each incoming value is a known number; nil otherwise.
@@ -1445,6 +1615,16 @@ func callEventsT(p *Program, t *Termer) func(in ssa.Instruction, ps *pathState) 
 			}
 			if x.Common().IsInvoke() {
 				ev.Args = append(ev.Args, t.Term(x.Common().Value, ps))
+			} else if x.Common().StaticCallee() == nil && ps != nil {
+				fv := ps.Resolve(x.Common().Value)
+				for i := 0; i < 3; i++ {
+					if ct, isCT := fv.(*ssa.ChangeType); isCT {
+						fv = ps.Resolve(ct.X)
+					}
+				}
+				if mc, isMC := fv.(*ssa.MakeClosure); isMC {
+					ev.Target = mc.Fn.Name()
+				}
 			}
 			for _, a := range x.Common().Args {
 				ev.Args = append(ev.Args, t.Term(a, ps))
@@ -1459,6 +1639,15 @@ func callEventsT(p *Program, t *Termer) func(in ssa.Instruction, ps *pathState) 
 			}
 			if fv, ok := x.Addr.(*ssa.FreeVar); ok {
 				return Event{Kind: "store", Name: "fv:" + fv.Name(), Val: t.Term(x.Val, ps), Base: ""}, true
+			}
+			// through a pointer the caller handed in (`*out = v`), directly or as a closure's captured copy
+			if pa, ok := x.Addr.(*ssa.Parameter); ok {
+				return Event{Kind: "store", Name: "out:" + pa.Name(), Val: t.Term(x.Val, ps), Base: ""}, true
+			}
+			if u, ok := x.Addr.(*ssa.UnOp); ok && u.Op == token.MUL {
+				if fv, isFV := u.X.(*ssa.FreeVar); isFV {
+					return Event{Kind: "store", Name: "out:" + fv.Name(), Val: t.Term(x.Val, ps), Base: ""}, true
+				}
 			}
 		}
 		return Event{}, false
